@@ -1,7 +1,7 @@
 """C13 - an expression means the same in every position, alias, spelling and cache size"""
 from ..scen_expr import separators, option_tails
 from ..scen_ctx import contexts
-from ..scen_misc import regex_cache
+from ..scen_misc import regex_cache, function_names
 
 
 def run(ctx):
@@ -9,3 +9,4 @@ def run(ctx):
     option_tails(ctx)
     contexts(ctx)        # 'the current input with its parents': every option position sees the same context derivations
     regex_cache(ctx)
+    function_names(ctx)
